@@ -99,8 +99,8 @@ def _shuffled(y, rng):
 
 Y_MALFORMS = ["y_unsorted", "y_empty", "y_frame", "y_ndarray", "y_list"]
 X_MALFORMS = ["X_shifted", "X_shorter", "X_unsorted", "X_ndarray"]
-FH_MALFORMS = ["fh_dup", "fh_empty", "fh_frac_list", "fh_frac_array", "fh_frac_scalar", "fh_str",
-               "fh_dict", "fh_nested"]
+FH_MALFORMS = ["fh_dup", "fh_dup_array", "fh_dup_index", "fh_empty", "fh_empty_index",
+               "fh_frac_list", "fh_frac_array", "fh_frac_scalar", "fh_str", "fh_dict", "fh_nested"]
 INT_MALFORMS = ["zero", "negative", "fractional", "string", "bool"]
 
 
@@ -135,6 +135,12 @@ def malform_X(kind, X, rng):
 def malform_fh(kind, steps):
     if kind == "fh_dup":
         return list(steps) + [steps[-1]]
+    if kind == "fh_dup_array":
+        return np.array(list(steps) + [steps[0]])
+    if kind == "fh_dup_index":
+        return pd.Index([steps[0]] + list(steps), dtype=np.int64)
+    if kind == "fh_empty_index":
+        return pd.Index([], dtype=np.int64)
     if kind == "fh_empty":
         return []
     if kind == "fh_frac_list":
@@ -369,12 +375,25 @@ def _register_fh_cells():
     def different(ctx):
         spec = ctx.forecaster(["reduce_dir", "reduce_multi", "reduce_dirrec", "stack"])
         f = C.build(spec).fit(ctx.y_train, fh=list(ctx.steps))
-        other = list(ctx.steps) + [max(ctx.steps) + 1] if ctx.rng.random() < 0.5 else \
-            [s + 1 for s in ctx.steps]
+        r = ctx.rng.random()
+        if r < 0.35:
+            other = list(ctx.steps) + [max(ctx.steps) + 1]
+        elif r < 0.6 or len(ctx.steps) == 1:
+            other = [s + 1 for s in ctx.steps]
+        elif r < 0.8:
+            other = list(ctx.steps)[:-1]          # a proper subset of the fitted horizon
+        else:
+            other = [ctx.steps[-1]]               # a single step out of the fitted horizon
         return dict(control=lambda: C.build(spec).fit(ctx.y_train, fh=list(ctx.steps)).predict(list(ctx.steps)),
                     faulty=lambda: f.predict(other), after=lambda: f.predict(),
                     sig={"forecaster": _k(spec)})
     cell("predict/fh_different_from_fit", "missing_or_different_fh", "entry_forecaster")(different)
+
+
+def _scaler():
+    """An estimator with fit() that is not a regressor."""
+    from sklearn.preprocessing import StandardScaler
+    return StandardScaler()
 
 
 def _use_fh(fh, ctx):
@@ -473,8 +492,14 @@ def _register_int_cells():
         # in-sample prediction relies on it, so no rejection is demanded there)
         t = ctx.rng.choice(["sliding", "expanding", "single"])
         n = len(ctx.y_train)
-        good = _splitter(ctx, type=t, window=6)
-        bad = _splitter(ctx, type=t, window=n + ctx.rng.choice([0, 1, 5]))
+        hmax = max(ctx.steps)
+        # largest window that still fits (control) vs the smallest one that does not (fault)
+        if ctx.rng.random() < 0.5:
+            good = _splitter(ctx, type=t, window=n - hmax)
+            bad = _splitter(ctx, type=t, window=n - hmax + 1)
+        else:
+            good = _splitter(ctx, type=t, window=6)
+            bad = _splitter(ctx, type=t, window=n + ctx.rng.choice([0, 1, 5]))
         return dict(control=lambda: list(good().split(ctx.y_train)),
                     faulty=lambda: list(bad().split(ctx.y_train)), sig={"splitter": t})
     cell("split/window_does_not_fit", "window_does_not_fit", "entry_splitter")(split_oversize)
@@ -639,7 +664,9 @@ def _register_composite_cells():
 
         def faulty():
             holder["f"] = StackingForecaster([("a", a), ("b", b)],
-                                             final_regressor=ctx.rng.choice([C.build(ctx.forecaster(["naive"])), None, "ols"]))
+                                             final_regressor=ctx.rng.choice([
+                                                 C.build(ctx.forecaster(["naive"])), None, "ols",
+                                                 _scaler(), _scaler()]))
             return holder["f"].fit(ctx.y_train, fh=list(ctx.steps))
         return dict(control=lambda: StackingForecaster([("a", a), ("b", b)], final_regressor=peers.StubRegressor()).fit(ctx.y_train, fh=list(ctx.steps)),
                     faulty=faulty, fresh=lambda: holder.get("f"), sig={"composite": "stack"})
